@@ -112,6 +112,6 @@ theorem earlier_responses_first (fuel idx : Nat) (s : St) (bs : Bytes) (fin : En
   exact runLoop_out_prefix fuel idx s bs fin script
 
 example : (Conn.run b!"GET /a HTTP/1.1\r\n\r\nGET /b HTTP/2.0\r\n\r\nGET /c HTTP/1.1\r\n\r\nBAD\r\n\r\nGET /d HTTP/1.1\r\n\r\n" .eof
-    (fun _ => ⟨0, 0, 1, .drop⟩)).statuses = [500, 505, 500, 400] := by decide
+    (fun _ => ⟨0, 0, 1, .drop, false⟩)).statuses = [500, 505, 500, 400] := by decide
 
 end TH.Props.C10
